@@ -8,11 +8,10 @@ Local Open Scope N_scope.
 
 (* Every history, every admissible configuration, every policy answer (DESIGN Appendix A).
    [Forall ... trace] says that no call of the history ends in UB or in an FRG_ASSERT.
-   [history_short]: fewer than 2^32 calls -- slab_frame::num_reserved is an unsigned int that the code increments on
-   every allocation from the slab and never decrements; free asserts it to be non-zero (see NOTES.md). *)
+   (Until the D42 fix the theorem needed `fewer than 2^32 calls`: num_reserved was never decremented.) *)
 Theorem C01_blocks_valid_disjoint_aligned :
   forall (c : cfg) (ops : list op),
-    cfg_ok c = true -> policy_ok c ops -> api_ok c ops -> history_short ops ->
+    cfg_ok c = true -> policy_ok c ops -> api_ok c ops ->
     forall pre, prefix pre ops ->
     let s := run c pre in
     Forall (fun x => is_stop (fst x) = false) (trace_from c (init c) pre)
@@ -41,7 +40,7 @@ Print Assumptions C01_size_class_exact.
 Theorem C01_allocate_succeeds :
   forall c ops n r,
     cfg_ok c = true -> policy_ok c (ops ++ [Alloc n (MapRet r)]) -> api_ok c (ops ++ [Alloc n (MapRet r)]) ->
-    history_short (ops ++ [Alloc n (MapRet r)]) -> r <> 0 ->
+    r <> 0 ->
     exists p, res_of (step c (run c ops) (Alloc n (MapRet r))) = RPtr p /\ p <> 0.
 Proof. exact alloc_succeeds. Qed.
 Print Assumptions C01_allocate_succeeds.
@@ -58,10 +57,10 @@ Definition demo_ops : list op :=
                    Realloc 12096 3 (MapRet 40960); Realloc 12032 5000 (MapRet 61440);
                    Dealloc 11968 60; GetSize 11904; Write 11904 0 64 7; Realloc 11904 0 MapFail; Free 0].
 Example C01_hyps_satisfiable :
-  cfg_ok c01_cfg = true /\ policy_ok c01_cfg demo_ops /\ api_ok c01_cfg demo_ops /\ history_short demo_ops
+  cfg_ok c01_cfg = true /\ policy_ok c01_cfg demo_ops /\ api_ok c01_cfg demo_ops
   /\ length (live (run c01_cfg demo_ops)) = 61%nat /\ length (slabs (run c01_cfg demo_ops)) = 2%nat
   /\ length (larges (run c01_cfg demo_ops)) = 1%nat.
-Proof. unfold policy_ok, api_ok, history_short. vm_compute. repeat split; reflexivity. Qed.
+Proof. unfold policy_ok, api_ok. vm_compute. repeat split; reflexivity. Qed.
 
 Example C01_size_class_nonvacuous :
   s2b 32768 = 12 /\ b2s 12 = 32768 /\ s2b 32767 = 12 /\ s2b 16385 = 12 /\ s2b 16384 = 11 /\ s2b 65 = 4 /\ s2b 64 = 3 /\ s2b 1 = 0.
